@@ -578,3 +578,103 @@ def drv_bridge(case):
                     "A_vars": [tok(v.id) for v in list(A.variables)], "A_index": [tok(v.id) for v in list(A.index)],
                     "linalg_A": _nest(numpy.asarray(lA).tolist()), "linalg_b": [proj.I(x) for x in numpy.asarray(lb).tolist()]})
     return out
+
+# ============================================================================= priorities, objectives, solver bridge (C13-C15)
+METHODS = ["first", "last", "min", "max", "prio", "rank", "shadow"]
+
+def drv_compress(case):
+    import numpy, puan.ndarray as pnd
+    x, kind = case["x"], case["kind"]
+    arr = pnd.integer_ndarray(numpy.array(x, dtype=numpy.int64))
+    axis = {"2d0": 0, "2d1": 1, "flat": None, "3d0": 0}[kind]
+    runs = []
+    for m in METHODS:
+        r = arr.ndint_compress(method=m, axis=axis) if axis is not None else arr.ndint_compress(method=m)
+        runs.append({"m": m, "r": _nest(numpy.asarray(r).tolist())})
+    xs = x
+    if kind == "flat":
+        xs = numpy.asarray(x).flatten().tolist()
+    return [{"op": "compress", "kind": kind, "x": xs, "runs": runs}]
+
+def _recv(call, tok):
+    P = call["polyhedron"]
+    pp = proj.cfgpoly(P, tok)
+    return {"rows": pp["rows"], "cols": pp["cols"], "dpv": pp["dpv"], "objectives": [[proj.I(v) for v in o] for o in call["objectives"]]}
+
+def _box_of_cols(cols):
+    n = 1
+    for c in cols: n *= c["hi"] - c["lo"] + 1
+    return n
+
+def drv_select(case):
+    """StingyConfigurator.select with harness solvers; case: recipe (Cfg), prios (list of dicts over tokens = real ids), solver, only_leafs"""
+    import puan, puan.ndarray as pnd
+    from . import solvers
+    m = _mk(case)
+    if not _valid(m): return []
+    tok = proj.Tok()
+    pm = proj.node(m, tok)
+    out = []
+    for prios in case["prios_list"]:
+      for mode in case.get("solvers", ["capture", "exact", "none", "raise", "mixed"]):
+        for only_leafs in case.get("leaf_opts", (False, True)):
+            if mode in ("none", "raise", "mixed") and only_leafs: continue
+            cfg = m                                   # the SAME configurator object serves every request (history)
+            direct = proj.cfgpoly(cfg.ge_polyhedron, tok)
+            if mode == "exact" and _box_of_cols(direct["cols"]) > (1 << 12): continue
+            s = solvers.Capture(mode)
+            exc, reported = "", []
+            try:
+                res = list(cfg.select(*[dict(p) for p in prios], solver=s, only_leafs=only_leafs))
+                reported = [[[tok(k), proj.I(v)] for k, v in r.items()] if isinstance(r, dict) else [[tok(k), proj.I(v)] for k, v in r[0].items()] for r in res]
+            except Exception as ex:
+                exc = type(ex).__name__
+            called = bool(s.calls)
+            rc = _recv(s.calls[0], tok) if called else {"rows": [], "cols": [], "dpv": [], "objectives": []}
+            returned = []
+            if called and mode != "raise":
+                for sol in s.calls[0].get("answers", []):
+                    returned.append({"none": sol[0] is None, "x": [proj.I(v) for v in sol[0]] if sol[0] is not None else []})
+            enum = _box_of_cols(rc["cols"]) <= (1 << 10) if called else False
+            out.append({"op": "select", "recipe": B.recipe_tokens(case["recipe"], tok), "model": pm,
+                        "prios": [[[tok(k), proj.I(v)] for k, v in p.items()] for p in prios], "solver": mode, "only_leafs": only_leafs,
+                        "called": called, "received": rc, "direct": {"rows": direct["rows"], "cols": direct["cols"], "dpv": direct["dpv"]},
+                        "returned": returned, "reported": reported, "exc": exc, "enum": enum, "spec_ok": bool(case.get("spec_ok", True)),
+                        "after": proj.node(m, tok)})
+    return out
+
+def drv_solve(case):
+    """AtLeast.solve(objectives, solver=callable) on a model; case: recipe, objectives (list of dicts), include_virtual"""
+    import puan
+    from . import solvers
+    m = _mk(case)
+    if not _valid(m): return []
+    tok = proj.Tok()
+    pm = proj.node(m, tok)
+    out = []
+    for objs in case["objectives_list"]:
+        for mode in case.get("solvers", ["capture", "exact", "none", "mixed"]):
+            for incl in (False, True):
+                direct = proj.cfgpoly(m.to_ge_polyhedron(active=True), tok)
+                if mode == "exact" and _box_of_cols(direct["cols"]) > (1 << 12): continue
+                s = solvers.Capture(mode)
+                exc, reported = "", []
+                try:
+                    res = list(m.solve([dict(o) for o in objs], solver=s, include_virtual_variables=incl))
+                    reported = [[[tok(k), proj.I(v)] for k, v in r[0].items()] for r in res]
+                except Exception as ex:
+                    exc = type(ex).__name__
+                if not s.calls:
+                    out.append({"op": "solve", "model": pm, "exc": exc or "solver_not_called", "received": {"rows": [], "cols": [], "objectives": []},
+                                "direct": {"rows": [], "cols": []}, "objectives": [], "returned": [], "reported": [], "include_virtual": incl,
+                                "solver": mode, "enum": False})
+                    continue
+                rc = _recv(s.calls[0], tok)
+                returned = []
+                for sol in s.calls[0].get("answers", []):
+                    returned.append({"none": sol[0] is None, "x": [proj.I(v) for v in sol[0]] if sol[0] is not None else []})
+                out.append({"op": "solve", "model": pm, "objectives": [[[tok(k), proj.I(v)] for k, v in o.items()] for o in objs],
+                            "solver": mode, "include_virtual": incl, "received": {"rows": rc["rows"], "cols": rc["cols"], "objectives": rc["objectives"]},
+                            "direct": {"rows": direct["rows"], "cols": direct["cols"]}, "returned": returned, "reported": reported, "exc": exc,
+                            "enum": _box_of_cols(rc["cols"]) <= (1 << 10), "after": proj.node(m, tok)})
+    return out
